@@ -35,6 +35,9 @@ CONSTANTS Splits,       \* set of split names (strings)
           EmptyRoll,    \* TRUE: a metadata change rolls over even an empty shard (defect D7)
           MdByRef,      \* TRUE: the open shard aliases the caller's metadata object (defect D3)
           UseRef,       \* histories may pass one mutable metadata object ("REF") and mutate it between writes
+          Protocol,     \* "good" | "inplace" (metadata rewritten in place) | "list_first" (shard listed before it
+                        \* is written): the two deviations only exist to show that C06 can fail (non-vacuity)
+          NoMkdir,      \* TRUE: directory creation is not modelled as an effect (trace validation mode)
           CrashOn, ReaderOn
 
 VARIABLES files,     \* Path -> Content
@@ -83,11 +86,12 @@ TmpOf(p) == Append(Parent(p), "tmp_" \o p[Len(p)])
 RECURSIVE DirPrefixes(_)
 DirPrefixes(d) == IF d = <<>> THEN {<<>>} ELSE {d} \cup DirPrefixes(Parent(d))
 
-MkdirP(d) == <<[op |-> "mkdir", p |-> d]>>                  \* mkdir(parents=True, exist_ok=True)
+MkdirP(d) == IF NoMkdir THEN <<>> ELSE <<[op |-> "mkdir", p |-> d]>>                  \* mkdir(parents=True, exist_ok=True)
 \* open(p, "w"/"wb") ; write ; close : the file exists empty, then partially, then fully written
 WriteOps(p, c) == << [op |-> "create", p |-> p], [op |-> "wpart", p |-> p], [op |-> "wfull", p |-> p, c |-> c] >>
 \* utils.safe_update_file: mkdir parent ; temp file ; rename over the target
-SafeUpdate(p, c) == MkdirP(Parent(p)) \o WriteOps(TmpOf(p), c) \o << [op |-> "rename", p |-> TmpOf(p), q |-> p] >>
+SafeUpdate(p, c) == IF Protocol = "inplace" THEN MkdirP(Parent(p)) \o WriteOps(p, c)
+                    ELSE MkdirP(Parent(p)) \o WriteOps(TmpOf(p), c) \o << [op |-> "rename", p |-> TmpOf(p), q |-> p] >>
 
 ApplyFiles(fs, o) ==
     CASE o.op = "mkdir"   -> fs
@@ -232,7 +236,9 @@ CloseShard(pr, fs, s) ==
         l1 == [l0 EXCEPT !.shards = Append(@, [id |-> path, n |-> Len(sh.ex), md |-> md, sum |-> Digest(content)]),
                          !.n = @ + Len(sh.ex)]
     IN [ok |-> sh.ex # <<>>,        \* closing a shard that never received an example raises (D7)
-        ops |-> IF sh.ex = <<>> THEN <<>> ELSE fileOps \o SafeUpdate(ListPath(LP(pr, s)), l1),
+        ops |-> IF sh.ex = <<>> THEN <<>>
+                ELSE IF Protocol = "list_first" THEN SafeUpdate(ListPath(LP(pr, s)), l1) \o fileOps
+                ELSE fileOps \o SafeUpdate(ListPath(LP(pr, s)), l1),
         pr |-> [pr EXCEPT !.lists[s] = l1,
                           !.lorder = IF pr.lists[s] = NotLoaded THEN Append(@, s) ELSE @]]
 
@@ -315,15 +321,20 @@ ExitFiller(p) ==
            wc == IF pr0.auto THEN WriteConfig(ui.fs, mem, upd)
                  ELSE [ok |-> TRUE, fs |-> ui.fs, tbl |-> mem, writes |-> <<>>]
            ops == ca.ops \o ui.ops \o WritesToOps(wc.writes)
-           pr1 == [IdleProc EXCEPT !.sess = pr0.sess, !.updated = upd,
+           pr1 == [IdleProc EXCEPT !.sess = pr0.sess, !.updated = upd, !.dir = pr0.dir,
                                    !.state = IF p = 0 THEN "idle" ELSE "finished"]
        IN /\ Effects(p, pr1, ops)
           /\ mem' = IF pr0.auto /\ wc.ok THEN wc.tbl ELSE mem
           /\ failed' = (failed \/ ~wc.ok)
-          /\ IF p = 0
-             THEN /\ ctl' = IdleCtl(ctl.used) /\ done' = IF wc.ok THEN done \cup {pr0.sess} ELSE done
-             ELSE /\ ctl' = ctl /\ done' = done
-    /\ UNCHANGED <<nextEx, nextShard, nsess, wlog, callerMd, crashed, rd>>
+          /\ ctl' = IF p = 0 THEN [ctl EXCEPT !.mode = "exiting"] ELSE ctl
+    /\ UNCHANGED <<nextEx, nextShard, nsess, wlog, done, callerMd, crashed, rd>>
+
+\* __exit__ returns: every effect of the session is on disk, the session is committed
+SessionDone ==
+    /\ Running /\ ctl.mode = "exiting" /\ NoTodo
+    /\ done' = done \cup {nsess}
+    /\ ctl' = IdleCtl(ctl.used)
+    /\ UNCHANGED <<files, dirs, mem, procs, nextEx, nextShard, nsess, wlog, callerMd, crashed, failed, rd>>
 
 (* ---- write_multiprocessing -------------------------------------------------------------------- *)
 \* K DatasetFiller objects with fresh directory names, auto_update_dataset = False, one process each
@@ -349,15 +360,15 @@ MultiEnd ==
        IN /\ Effects(0, procs[0], WritesToOps(wc.writes))
           /\ mem' = IF wc.ok THEN wc.tbl ELSE mem
           /\ failed' = (failed \/ ~wc.ok)
-          /\ done' = IF wc.ok THEN done \cup {nsess} ELSE done
     /\ ctl' = [ctl EXCEPT !.mode = "multiend"]
-    /\ UNCHANGED <<nextEx, nextShard, nsess, wlog, callerMd, crashed, rd>>
+    /\ UNCHANGED <<nextEx, nextShard, nsess, wlog, done, callerMd, crashed, rd>>
 \* workers' process records are forgotten once the parent's effects are on disk
 MultiDone ==
     /\ Running /\ ctl.mode = "multiend" /\ NoTodo
     /\ procs' = [p \in P |-> IF p = 0 THEN procs[0] ELSE IdleProc]
     /\ ctl' = IdleCtl(ctl.used)
-    /\ UNCHANGED <<files, dirs, mem, nextEx, nextShard, nsess, wlog, done, callerMd, crashed, failed, rd>>
+    /\ done' = done \cup {nsess}
+    /\ UNCHANGED <<files, dirs, mem, nextEx, nextShard, nsess, wlog, callerMd, crashed, failed, rd>>
 
 (* ---- crash ------------------------------------------------------------------------------------ *)
 Crash ==
@@ -589,6 +600,7 @@ Next ==
     \/ \E p \in P, s \in Splits, md \in MDs, kd \in Kinds : Write(p, s, md, kd)
     \/ MutateCaller
     \/ \E p \in P : ExitFiller(p)
+    \/ SessionDone
     \/ \E K \in 1..MaxK : MultiBegin(K)
     \/ MultiEnd \/ MultiDone
     \/ \E p \in P : FSStep(p)
